@@ -136,6 +136,29 @@ def corpus(v):
                 m.pv2.pv2_3.value = "R%sS" % ec["COMPONENT"]
                 return m.to_er7()
             calls.append(("assign text inside a message %s L%d" % (ecn, L), assign_inside))
+        # every level's own to_er7() without arguments, inside a message written with its own delimiters: the MESSAGE's set
+        def leaf_encodings(L=L):
+            m = parse_message(text2, validation_level=L)
+            m.pid.pid_5.xpn_1.fn_1 = "DO|E&CO^"
+            m.pid.pid_3.cx_4 = "N|S$1.2^3$I&O"
+            sub = m.pid.pid_5.xpn_1.fn_1[0]
+            hd3 = m.pid.pid_3.cx_4.hd_3[0]
+            out = [sub.to_er7(), hd3.to_er7(), m.pid.pid_3.cx_4.to_er7(), m.pid.pid_3.to_er7(), m.pid.pid_5.to_er7(), m.pid.to_er7(),
+                   vrep(m)]
+            return " ; ".join(out)
+        calls.append(("to_er7() of every level inside a custom-ec message L%d" % L, leaf_encodings))
+
+        # the library's own constant / the set the library reports as default at import time, handed over explicitly
+        def const_ec(L=L):
+            from hl7apy.consts import DEFAULT_ENCODING_CHARS as K
+            s1 = parse_segment("PID|1||5^^^Z~6||A^B&C!D@E", version=v, encoding_chars=K, validation_level=L)
+            f1 = parse_field("A^B&C!D", name="PID_5", version=v, encoding_chars=K, validation_level=L)
+            m1 = Message("ADT_A01", version=v, validation_level=L, encoding_chars=K)
+            m1.msh.msh_7 = "20200101"
+            m1.pid.pid_5 = "DOE^JOHN!X"
+            return " ; ".join([s1.to_er7(K), str(len(s1.children)), f1.to_er7(K), str(len(f1.children)), m1.to_er7(), m1.msh.msh_2.to_er7(),
+                               "".join(K[k_] for k_ in ("FIELD", "COMPONENT", "REPETITION", "ESCAPE", "SUBCOMPONENT"))])
+        calls.append(("explicit encoding_chars = hl7apy.consts.DEFAULT_ENCODING_CHARS L%d" % L, const_ec))
         calls.append(("parse_segment overlong-invalid-date L%d" % L, lambda L=L: parse_segment("PID|1||||||" + long_bad, version=v, validation_level=L, encoding_chars=full(EC_STD)).to_er7(full(EC_STD))))
         calls.append(("parse_segment overlong-text L%d" % L, lambda L=L: parse_segment("PID|1||" + long_bad, version=v, validation_level=L, encoding_chars=full(EC_STD)).to_er7(full(EC_STD))))
         for dt, val in (("DT", "20200102"), ("DT", "nodate"), ("DT", long_bad), ("NM", "12.50"), ("NM", "x"), ("ST", long_bad),
@@ -197,7 +220,20 @@ def creators(v):
 
     def seg_parsed():
         return parse_segment("PID|1||5^^^Z~6||A^B&C")
-    return [("Segment() defaults", seg_default, "parentless"), ("Segment(version) explicit", seg_explicit, "parentless"),
+    def msg_const_ec():
+        from hl7apy.consts import DEFAULT_ENCODING_CHARS as K
+        m = Message("ADT_A01", version=v, encoding_chars=K)
+        m.msh.msh_7 = "20200101"
+        m.pid.pid_5 = "DOE^JOHN!X"
+        return m
+
+    def msg_custom():
+        typ = "ADT@A01" if v < "2.3.1" else "ADT@A01@ADT_A01"
+        m = parse_message("MSH!@%%/$!A!B!C!D!20200101!!%s!1!P!%s\rPID!1!!12@@@X%%13!!DO|E&CO@JOHN$X" % (typ, v))
+        return m.pid.pid_5.xpn_1.fn_1[0]
+    return [("Message(encoding_chars=consts.DEFAULT_ENCODING_CHARS)", msg_const_ec, "message"),
+            ("subcomponent of a parsed custom-ec message", msg_custom, "message"),
+            ("Segment() defaults", seg_default, "parentless"), ("Segment(version) explicit", seg_explicit, "parentless"),
             ("Message() defaults", msg_default, "message"), ("parse_message", msg_parsed, "message"),
             ("parse_segment defaults", seg_parsed, "parentless")]
 
